@@ -8,12 +8,12 @@ OBL = []
 
 MODPATH = {
     "ast.rs": "ast", "ast__sim.rs": "ast::sim", "asm.rs": "asm", "asm__encoding.rs": "asm::encoding", "err.rs": "err",
-    "parse.rs": "parse", "parse__lex.rs": "parse::lex", "sim.rs": "sim", "sim__mem.rs": "sim::mem", "sim__mem__copy.rs": "sim::mem", "sim__frame.rs": "sim::frame", "sim__device.rs": "sim::device",
+    "parse.rs": "parse", "parse__lex.rs": "parse::lex", "sim.rs": "sim", "sim__mem.rs": "sim::mem", "sim__mem__copy.rs": "sim::mem", "sim__frame.rs": "sim::frame", "sim__device.rs": "sim::device", "sim__device__poll.rs": "sim::device", "sim__device__h.rs": "sim::device", "sim__frame__h.rs": "sim::frame", "sim__mem__h.rs": "sim::mem",
     "sim__device__timer.rs": "sim::device::timer", "sim__device__keyboard.rs": "sim::device::keyboard", "sim__device__display.rs": "sim::device::display", "sim__debug.rs": "sim::debug", "sim__observer.rs": "sim::observer",
 }
 
 
-MODNAME = {"sim__mem__copy.rs": "verif_kani_copy"}
+MODNAME = {"sim__mem__copy.rs": "verif_kani_copy", "sim__device__poll.rs": "verif_kani_poll", "sim__device__h.rs": "verif_kani_h", "sim__frame__h.rs": "verif_kani_h", "sim__mem__h.rs": "verif_kani_h"}
 
 
 def K(id, module, harness, props, functions, kind="complete", bound=None, tier="quick", args=None, timeout=900,
@@ -57,15 +57,15 @@ K("K.ast_sim.encode_spec", "ast__sim.rs", "encode_spec_and_roundtrip", ["C06", "
 K("K.ast_sim.opcode_spec", "ast__sim.rs", "opcode_spec", ["C01"], ["SimInstr::opcode"], replay="native")
 
 # ------------------------------------------------------------------------------------------------ sim/mem.rs
-K("K.mem.word_ops_sound", "sim__mem.rs", "word_ops_sound", ["C15"], ["<Word as Add>::add", "<Word as Sub>::sub", "<Word as BitAnd>::bitand", "<Word as Not>::not"], replay="native")
-K("K.mem.word_assign_ops", "sim__mem.rs", "word_assign_ops_agree", ["C15"],
+K("K.mem.word_ops_sound", "sim__mem__h.rs", "word_ops_sound", ["C15"], ["<Word as Add>::add", "<Word as Sub>::sub", "<Word as BitAnd>::bitand", "<Word as Not>::not"], replay="native")
+K("K.mem.word_assign_ops", "sim__mem__h.rs", "word_assign_ops_agree", ["C15"],
   ["<Word as AddAssign>::add_assign", "<Word as AddAssign<u16>>::add_assign", "<Word as AddAssign<i16>>::add_assign",
    "<Word as SubAssign>::sub_assign", "<Word as SubAssign<u16>>::sub_assign", "<Word as SubAssign<i16>>::sub_assign",
    "<Word as BitAndAssign>::bitand_assign"], replay="native")
-K("K.mem.word_leaf", "sim__mem.rs", "word_leaf_contracts", ["C14", "C16"],
+K("K.mem.word_leaf", "sim__mem__h.rs", "word_leaf_contracts", ["C14", "C16"],
   ["Word::new_init", "Word::new_uninit", "Word::get", "Word::get_if_init", "Word::set", "Word::set_if_init", "Word::is_init",
    "Word::clear_init", "<Word as From<u16>>::from", "<Word as From<i16>>::from"], replay="native")
-K("K.mem.regfile_index", "sim__mem.rs", "regfile_index_contract", ["C16", "C08"], ["<RegFile as Index<Reg>>::index", "<RegFile as IndexMut<Reg>>::index_mut"], replay="native")
+K("K.mem.regfile_index", "sim__mem__h.rs", "regfile_index_contract", ["C16", "C08"], ["<RegFile as Index<Reg>>::index", "<RegFile as IndexMut<Reg>>::index_mut"], replay="native")
 
 for h, b in (("copy_block_user_ssns", "start x3000, shape S S N S"), ("copy_block_user_nnss", "start x4321, shape N N S S"), ("copy_block_single", "start x0000, one initialized word"),
              ("copy_block_end_of_memory", "start xFFFE, shape S N (ends exactly at x10000)"), ("copy_block_wrap_init", "start xFFFE, four initialized words (wraps to x0000)"),
@@ -75,36 +75,39 @@ for h, b in (("copy_block_user_ssns", "start x3000, shape S S N S"), ("copy_bloc
 
 # ------------------------------------------------------------------------------------------------ sim/frame.rs
 RS = "std::hash::RandomState::new=fixed keys (hash keys do not affect map semantics)"
-K("K.frame.depth", "sim__frame.rs", "depth_contract", ["C27", "C16"], ["FrameStack::push_frame", "FrameStack::pop_frame", "FrameStack::len", "FrameStack::is_empty"],
+K("K.frame.depth", "sim__frame__h.rs", "depth_contract", ["C27", "C16"], ["FrameStack::push_frame", "FrameStack::pop_frame", "FrameStack::len", "FrameStack::is_empty"],
   args=UF, stubs=[RS], group="frame")
 for h, b in (("debug_frame_0", "empty frame list"), ("debug_frame_1", "one frame already on the list")):
-    K(f"K.frame.{h}", "sim__frame.rs", h, ["C27"], ["FrameStack::push_frame", "FrameStack::pop_frame", "FrameStack::frames"],
+    K(f"K.frame.{h}", "sim__frame__h.rs", h, ["C27"], ["FrameStack::push_frame", "FrameStack::pop_frame", "FrameStack::frames"],
       kind="bounded", bound=b + "; no signature registered for the callee", args=UF, stubs=[RS], group="frame", timeout=1200)
 for n in (0, 1, 2):
-    K(f"K.frame.arguments_{n}", "sim__frame.rs", f"arguments_{n}", ["C27"], ["ParameterList::get_arguments"],
+    K(f"K.frame.arguments_{n}", "sim__frame__h.rs", f"arguments_{n}", ["C27"], ["ParameterList::get_arguments"],
       kind="bounded", bound=f"{n} parameter(s)", args=UF, group="frame", timeout=1200)
 
-K("K.frame.signature", "sim__frame.rs", "debug_frame_with_signature", ["C27"], ["FrameStack::set_subroutine_def", "FrameStack::get_subroutine_def", "FrameStack::push_frame", "ParameterList::get_arguments"],
+K("K.frame.signature", "sim__frame__h.rs", "debug_frame_with_signature", ["C27"], ["FrameStack::set_subroutine_def", "FrameStack::get_subroutine_def", "FrameStack::push_frame", "ParameterList::get_arguments"],
   kind="bounded", bound="one callee at the concrete address x4000, one-parameter pass-by-register signatures registered twice", args=UF, stubs=[RS], unwindset={"hashbrown": 3}, timeout=2400, tier="thorough", exploratory=True)
 
 # ------------------------------------------------------------------------------------------------ sim/device.rs
 SLOT = "<SimDevice as ExternalDevice>::{io_read,io_write,poll_interrupt,io_reset}=recording stub: arbitrary result, no access to simulator state (guaranteed by the &mut self signature)"
-K("K.device.io_read_dispatch", "sim__device.rs", "io_read_dispatch", ["C32"], ["DeviceHandler::io_read", "DeviceHandler::get_dev_id"], bound="4 device slots (port table fully symbolic)", stubs=[SLOT], group="dev")
-K("K.device.io_write_dispatch", "sim__device.rs", "io_write_dispatch", ["C32"], ["DeviceHandler::io_write", "DeviceHandler::get_dev_id"], bound="4 device slots (port table fully symbolic)", stubs=[SLOT], group="dev")
-K("K.device.null", "sim__device.rs", "null_device_contract", ["C32"], ["NullDevice::io_read", "NullDevice::io_write", "NullDevice::poll_interrupt", "<SimDevice as ExternalDevice>::* (Null arm)"], group="dev")
-K("K.device.new_wf", "sim__device.rs", "new_handler_wf", ["C32"], ["DeviceHandler::new"], group="dev")
+K("K.device.io_read_dispatch", "sim__device__h.rs", "io_read_dispatch", ["C32"], ["DeviceHandler::io_read", "DeviceHandler::get_dev_id"], bound="4 device slots (port table fully symbolic)", stubs=[SLOT], group="dev")
+K("K.device.io_write_dispatch", "sim__device__h.rs", "io_write_dispatch", ["C32"], ["DeviceHandler::io_write", "DeviceHandler::get_dev_id"], bound="4 device slots (port table fully symbolic)", stubs=[SLOT], group="dev")
+K("K.device.null", "sim__device__h.rs", "null_device_contract", ["C32"], ["NullDevice::io_read", "NullDevice::io_write", "NullDevice::poll_interrupt", "<SimDevice as ExternalDevice>::* (Null arm)"], group="dev")
+K("K.device.new_wf", "sim__device__h.rs", "new_handler_wf", ["C32"], ["DeviceHandler::new"], group="dev")
 for h, b in (("add_device_0_ports", "3 devices, 0 ports"), ("add_device_1_port_3", "3 devices, 1 port"), ("add_device_1_port_4", "4 devices, 1 port"), ("add_device_2_ports", "3 devices, 2 ports")):
-    K(f"K.device.{h}", "sim__device.rs", h, ["C32"], ["DeviceHandler::add_device", "DeviceHandler::get_dev_id"], kind="bounded", bound=b + "; port table fully symbolic", group="dev")
+    K(f"K.device.{h}", "sim__device__h.rs", h, ["C32"], ["DeviceHandler::add_device", "DeviceHandler::get_dev_id"], kind="bounded", bound=b + "; port table fully symbolic", group="dev")
 for h, b in (("remove_device_3", "removed id 3"), ("remove_device_4", "removed id 4"), ("remove_device_kbd", "removed id 1 (keyboard)"), ("remove_device_null", "removed id 0"), ("remove_device_absent", "removed id 9 (no such device)")):
-    K(f"K.device.{h}", "sim__device.rs", h, ["C32"], ["DeviceHandler::remove_device"], kind="bounded",
+    K(f"K.device.{h}", "sim__device__h.rs", h, ["C32"], ["DeviceHandler::remove_device"], kind="bounded",
       bound="5 device slots; arbitrary owner at one concrete port, unowned elsewhere; " + b, group="dev", timeout=1200)
-K("K.device.remove_device_multi_port", "sim__device.rs", "remove_device_multi_port", ["C32"], ["DeviceHandler::remove_device", "DeviceHandler::add_device"], kind="bounded",
-  bound="concrete table: device 3 owns three ports, device 4 one; remove 3, then add a device on two of the freed ports", group="dev", timeout=1200)
-K("K.device.set_kbd_display", "sim__device.rs", "set_keyboard_display_contract", ["C32"], ["DeviceHandler::set_keyboard", "DeviceHandler::set_display"], group="dev")
-K("K.device.interrupt_leaf", "sim__device.rs", "interrupt_leaf", ["C10", "C34"], ["Interrupt::vectored", "Interrupt::priority"], group="dev", replay="native")
-K("K.device.poll_arbitration_3", "sim__device.rs", "poll_arbitration_3", ["C10"], ["DeviceHandler::poll_interrupt"], kind="bounded", bound="3 device slots", stubs=[SLOT], group="dev")
-K("K.device.poll_arbitration_4", "sim__device.rs", "poll_arbitration_4", ["C10"], ["DeviceHandler::poll_interrupt"], kind="bounded", bound="4 device slots", stubs=[SLOT], group="dev")
-K("K.device.io_reset_all", "sim__device.rs", "io_reset_all", ["C30"], ["DeviceHandler::io_reset"], kind="bounded", bound="4 device slots", stubs=[SLOT], group="dev")
+K("K.device.remove_device_multi_port", "sim__device__h.rs", "remove_device_multi_port", ["C32"], ["DeviceHandler::remove_device"], kind="bounded",
+  bound="concrete table: device 3 owns three ports, device 4 one; remove 3", group="dev", timeout=1200)
+K("K.device.set_kbd_display", "sim__device__h.rs", "set_keyboard_display_contract", ["C32"], ["DeviceHandler::set_keyboard", "DeviceHandler::set_display"], group="dev")
+K("K.device.interrupt_leaf", "sim__device__h.rs", "interrupt_leaf", ["C10", "C34"], ["Interrupt::vectored", "Interrupt::priority"], group="dev", replay="native")
+K("K.device.poll_arbitration_3", "sim__device__h.rs", "poll_arbitration_3", ["C10"], ["DeviceHandler::poll_interrupt"], kind="bounded", bound="3 device slots", stubs=[SLOT], group="dev")
+K("K.device.poll_arbitration_4", "sim__device__h.rs", "poll_arbitration_4", ["C10"], ["DeviceHandler::poll_interrupt"], kind="bounded", bound="4 device slots", stubs=[SLOT], group="dev")
+for n in (3, 4):
+    K(f"K.device.poll_with_external_{n}", "sim__device__poll.rs", f"poll_with_external_{n}", ["C10", "C34"], ["DeviceHandler::poll_interrupt"], kind="bounded", bound=f"{n} device slots; each reports nothing, a vectored request or an external (host) interrupt",
+      stubs=[SLOT], group="poll", timeout=1200)
+K("K.device.io_reset_all", "sim__device__h.rs", "io_reset_all", ["C30"], ["DeviceHandler::io_reset"], kind="bounded", bound="4 device slots", stubs=[SLOT], group="dev")
 
 # ------------------------------------------------------------------------------------------------ sim.rs
 STEP_FNS = ["Simulator::step", "Simulator::_step_inner", "Simulator::handle_interrupt", "Simulator::call_interrupt",
@@ -179,6 +182,10 @@ for h, b in (("display_0", "empty output buffer"), ("display_2", "2 bytes alread
     K(f"K.disp.{h}", "sim__device__display.rs", h, ["C16", "C32"], ["<BufferedDisplay as ExternalDevice>::io_read/io_write/io_reset/poll_interrupt", "<DevWrapper<D, dyn DisplayDevice> as ExternalDevice>::*", "BufferedDisplay::try_output", "<BufferedDisplay as DisplayDevice>::*"],
       kind="bounded", bound=b, group="disp", timeout=900, assumptions=["single-threaded: lock contention from other threads is C33 (not applicable)"])
 
+for h, b in (("sample_exclusive_5_6", "range 5..6"), ("sample_exclusive_3_7", "range 3..7"), ("sample_inclusive_3_7", "range 3..=7"), ("sample_inclusive_50_50", "range 50..=50")):
+    K(f"K.timer.{h}", "sim__device__timer.rs", h, ["C34"], ["TimerDevice::try_generate_time", "TimerDevice::reset_remaining"], kind="bounded", bound=b + " (concrete); generator output words symbolic; rand's range reduction verified through",
+      stubs=["<StdRng as RngCore>::next_u32/next_u64=arbitrary words (ChaCha not executed)"], group="timer", timeout=900)
+
 # ------------------------------------------------------------------------------------------------ parse.rs
 FMT = "alloc::fmt::format=panics (error-message formatting must be unreachable: a checked claim)"
 for h, fn in (("convert_imm5", "Offset<i16,5>"), ("convert_offset6", "Offset<i16,6>"), ("convert_pcoffset9", "Offset<i16,9>"), ("convert_pcoffset11", "Offset<i16,11>"),
@@ -200,6 +207,9 @@ K("K.asm.word_len", "asm.rs", "directive_word_len", ["C01"], ["Directive::word_l
 K("K.asm.word_len_multibyte", "asm.rs", "directive_word_len_multibyte", ["C01"], ["Directive::word_len"], kind="bounded", bound="one concrete 3-character / 6-byte string", group="asm")
 K("K.asm.into_sim_instr", "asm.rs", "into_sim_instr_table", ["C01"], ["AsmInstr::into_sim_instr", "replace_pc_offset (numeric arm)"], stubs=[UP, RS], group="asm")
 K("K.asm.numeric_offset", "asm.rs", "numeric_offset_passthrough", ["C01"], ["replace_pc_offset"], stubs=[UP, RS], group="asm")
+for v, tier in (("nop", "quick"), ("br", "quick"), ("jsr", "quick"), ("ld", "quick"), ("ldi", "quick"), ("lea", "quick"), ("st", "quick"), ("sti", "quick")):
+    K(f"K.asm.undefined_label_{v}", "asm.rs", f"undefined_label_{v}", ["C02", "C26"], ["AsmInstr::into_sim_instr", "replace_pc_offset"], kind="bounded",
+      bound=f"empty symbol table, one-letter label name; instruction {v.upper()}, registers / condition codes / PC symbolic", stubs=[RS], timeout=1800, tier=tier)
 K("K.asm.ranges_overlap", "asm.rs", "ranges_overlap_contract", ["C02"], ["ranges_overlap"], group="asm", replay="native")
 K("K.asm.disassemble", "asm.rs", "disassemble_reassemble", ["C07"], ["disassemble_line", "try_disassemble_line", "AsmInstr::into_sim_instr", "SimInstr::encode", "SimInstr::decode"], stubs=[UP, RS], group="asm7", timeout=1200)
 for n in (9, 11):
